@@ -17,7 +17,7 @@ EXTENDS ParserSM, DecoderEnv, Json, IOUtils
 Trace == ndJsonDeserialize(IOEnv.VERIF_TRACE)
 
 SoftRules == {"C19.right_maximal", "C19.left_maximal", "C19.run_literals",
-              "C12.match_longest", "C12.literal_justified", "C11.cost_optimal", "C11.not_above_witness", "C00.witness_invalid", "C07.refused"}
+              "C12.match_longest", "C12.literal_justified", "C12.no_longer_match", "C11.cost_optimal", "C11.not_above_witness", "C00.witness_invalid", "C07.refused"}
 
 MaxHard == 3   \* failing events recorded per trace before the rest is skipped
 
